@@ -91,6 +91,28 @@ func TestC20_Equality(t *testing.T) {
 			}
 			x, y, z = mk("cx"), mk("cy"), mk("cz")
 		}
+		deepNest := 0
+		if rapid.IntRange(0, 199).Draw(t, "deepnest") == 0 {
+			// the same three values at the bottom of a deep nest of arrays and
+			// single-member objects (a comparison that changes its method below
+			// some depth shows here); supplied through the document only
+			deepNest = gen.Pick(t, "nestdepth", []int{200, 1000, 1001, 1100})
+			kinds := make([]bool, deepNest)
+			for i := range kinds {
+				kinds[i] = rapid.Bool().Draw(t, "nestobj")
+			}
+			wrap := func(v jv.Val) jv.Val {
+				for _, obj := range kinds {
+					if obj {
+						v = jv.VObj([]jv.Member{{K: "n", V: v}})
+					} else {
+						v = jv.VArr([]jv.Val{v})
+					}
+				}
+				return v
+			}
+			x, y, z = wrap(x), wrap(y), wrap(z)
+		}
 		c.Case()
 		for _, v := range []jv.Val{x, y, z} {
 			if !numsAllOK(v) {
@@ -101,7 +123,7 @@ func TestC20_Equality(t *testing.T) {
 		// operands are supplied through the document or as literals
 		var ms []jv.Member
 		plain := func(name string, v jv.Val) ast.Expr {
-			if rapid.IntRange(0, 2).Draw(t, "aslit-"+name) == 0 {
+			if deepNest == 0 && rapid.IntRange(0, 2).Draw(t, "aslit-"+name) == 0 {
 				return ast.Lit(v)
 			}
 			ms = append(ms, jv.Member{K: name, V: v})
